@@ -323,7 +323,6 @@ func priorRun(r *gen.Rand, model bool) *hRun {
 	case "gen":
 		o := gen.DefaultProgOpts()
 		o.Floats = false
-		o.NoCycles = true
 		h.Src = gen.Program(r, o)
 	case "error-deep":
 		fail := []string{`throw "deep"`, `return 1 / (k - k)`, `return [][k + 3]`, `return k()`}[r.Intn(4)]
@@ -437,7 +436,6 @@ func observedRun(r *gen.Rand, model bool) *hRun {
 	case "gen":
 		o := gen.DefaultProgOpts()
 		o.Floats = false
-		o.NoCycles = true
 		h.Src = gen.Program(r, o)
 	case "locals":
 		// slots that are read before anything in this run wrote them
